@@ -4,7 +4,7 @@ Cache-Control parsing as done by the code HttpStateData::reusableReply reads its
 * `strListGetItem` (src/StrList.cc) with delimiter ','                          → `scanItem`, `getItem`, `items`
 * `HttpHeader::getList` / `strListAdd` (src/HttpHeader.cc, src/StrList.cc)      → `joinList`
 * `httpHeaderParseQuotedString` (src/HttpHeader.cc)                             → `parseQuoted`
-* `httpHeaderParseInt` = `atoi` + digit test (src/HttpHeaderTools.cc)           → `parseIntC`
+* `httpHeaderParseInt` (src/HttpHeaderTools.cc): range-checked `strtol` (or the older `atoi`) + digit test → `parseIntC`
 * `HttpHdrCc::parse` (src/HttpHdrCc.cc), name lookup through the generated `ccAttrs` → `Cc.step`, `parseCc`
 * `HttpHeader::getCc` (src/HttpHeader.cc)                                       → `getCc`
 
@@ -130,9 +130,26 @@ def atoiC (v : Bytes) : Int :=
                        else (if n > 9223372036854775807 then 9223372036854775807 else n)
   wrap32 clamped
 
+/-- the current form: `strtol`, failing when no digit was consumed, on ERANGE and outside [INT_MIN, INT_MAX] -/
+def strtolInt (v : Bytes) : Option Int :=
+  let s := v.dropWhile isSpaceC
+  let sd : Bool × Bytes := match s with
+    | 45 :: r => (true, r)
+    | 43 :: r => (false, r)
+    | _ => (false, s)
+  let ds := sd.2.takeWhile isDigitC
+  if ds.isEmpty then none
+  else
+    let n : Int := (digitsVal ds : Nat)
+    let x : Int := if sd.1 then -n else n
+    if x < -2147483648 || x > 2147483647 then none else some x
+
+/-- httpHeaderParseInt: which of the two forms the staged source has is a generated flag -/
 def parseIntC (v : Bytes) : Option Int :=
-  let x := atoiC v
-  if x == 0 && !(match v with | c :: _ => isDigitC c | [] => false) then none else some x
+  let r : Option Int := if Gen.Reusable.parseIntStrict then strtolInt v else some (atoiC v)
+  match r with
+  | none => none
+  | some x => if x == 0 && !(match v with | c :: _ => isDigitC c | [] => false) then none else some x
 
 /-! ### HttpHdrCc -/
 
